@@ -120,6 +120,14 @@ fn check_frame(s: &tui::Session, step: &str, obs: &mut Obs) -> CheckResult {
             if let Some((y, row)) = rows.iter().enumerate().find(|(_, r)| contains_token(r, &src)) {
                 vfail!("source-on-screen", "{step}: privacy max ttl {n} but the source address {src} is on screen (row {y}: `{}`)", row.trim());
             }
+            // ... and so is the name it resolves to (seeded, unless the target shares it)
+            let name = tui::other_hostname(t.cfg.src_addr());
+            if s.setups.iter().all(|o| tui::other_hostname(o.cfg.target_addr()) != name) {
+                if let Some((y, row)) = rows.iter().enumerate().find(|(_, r)| contains_token(r, &name)) {
+                    vfail!("source-name-on-screen", "{step}: privacy max ttl {n} but the host name of the source address, {name}, is on screen (row {y}: `{}`)", row.trim());
+                }
+                obs.class("frame-with-hidden-source");
+            }
         }
         if !hidden.is_empty() {
             obs.class("frame-with-hidden-responding-hop");
@@ -229,7 +237,7 @@ pub fn check() -> PropertyCheck {
     PropertyCheck {
         id: "C18",
         level: "exploration",
-        rule: "the C17 driver with every hop address given a seeded host name, AS record (number, prefix, registry, allocation date, name) and GeoIP record (city, region, country, continent, postal code; generated MaxMind DB), privacy ttl None / 0..14 from the command line and moved by the expand / contract keys, all address / AS / GeoIP / extension modes, hop details, max-addrs, flows, chart, map; after every drawn frame every row of the TestBackend buffer is searched (whole-token match) for each identifying string of every responding hop with ttl <= n of every flow of the displayed data and for the source address; on terminals >= 200x80 showing the plain table every address of every visible responding hop must be on screen (IP or host name); expand / contract are checked against the step model off <-> 0 .. hop count. evaluations count operations; non-trivial = >= 2 frames drawn with privacy in force; distinct by (operations, UI setup)",
+        rule: "the C17 driver with every hop address given a seeded host name, AS record (number, prefix, registry, allocation date, name) and GeoIP record (city, region, country, continent, postal code; generated MaxMind DB), privacy ttl None / 0..14 from the command line and moved by the expand / contract keys, all address / AS / GeoIP / extension modes, hop details, max-addrs, flows, chart, map; after every drawn frame every row of the TestBackend buffer is searched (whole-token match) for each identifying string of every responding hop with ttl <= n of every flow of the displayed data and for the source address and its (seeded) reverse-DNS name; on terminals >= 200x80 showing the plain table every address of every visible responding hop must be on screen (IP or host name); expand / contract are checked against the step model off <-> 0 .. hop count. evaluations count operations; non-trivial = >= 2 frames drawn with privacy in force; distinct by (operations, UI setup)",
         assumptions: vec![
             "strings that also belong to a visible hop of the displayed data are not counted against a hidden hop",
             "latitude / longitude / radius are not searched for (indistinguishable from timings)",
